@@ -80,6 +80,20 @@ mut("C13", "array_op_reuses_operand_list", AR, "            result = []\n       
 mut("C13", "scalar_reduce_rounds_value", SC, "        return Scalar, (self._quantity, self.value, None)  # Unit defined in quantity", "        return Scalar, (self._quantity, float('%.12g' % self.value), None)")
 mut("C13", "getvalues_same_unit_legacy_converts_in_place", AR, "        if IsListOfTuples(values):\n            result = []", "        if isinstance(values, list) and len(values) > 3 and not IsListOfTuples(values):\n            conv = self._quantity.Convert(values, unit)\n            values[:] = conv\n            self._quantity = self._quantity  # unit unchanged: value silently re-expressed\n            return conv\n        if IsListOfTuples(values):\n            result = []")
 
+# ---------------------------------------------------------------------------------------- C14
+mut("C14", "addunit_duplicate_check_removed", UD, "        if unit in self.unit_to_unit_info:\n            raise RuntimeError(\n                \"Unit: %s already added to the unit database for the quantity type: %s (trying to add to: %s)\"\n                % (unit, self.unit_to_unit_info[unit].quantity_type, quantity_type)\n            )\n        else:\n            self.unit_to_unit_info[unit] = info", "        self.unit_to_unit_info[unit] = info")
+mut("C14", "addunitbase_not_moved_to_front", UD, "        infos = self.quantity_types[quantity_type]\n        base = infos[-1]  # was appended to the end in Units.Add\n        del infos[-1]\n        infos.insert(0, base)", "        infos = self.quantity_types[quantity_type]")
+mut("C14", "addcategory_stores_before_validating_default_unit", UD, "        assert quantity_type is not None\n\n        # check if valid_units should inherit from the quantity_type", "        assert quantity_type is not None\n        self.categories_to_quantity_types[category] = CategoryInfo(category=category, quantity_type=quantity_type)\n\n        # check if valid_units should inherit from the quantity_type")
+mut("C14", "default_unit_validation_dropped", UD, "            if default_unit not in quantity_units:\n                raise ValueError(\n                    \"unit %r is not valid for default quantity type %r\"\n                    % (default_unit, quantity_type)\n                )", "            pass")
+mut("C14", "derived_default_value_ignores_min", UD, "            elif min_value is not None:\n                default_value = min_value\n            elif max_value is not None:", "            elif max_value is not None and min_value is None:")
+mut("C14", "clear_forgets_unit_map", UD, "        self.unit_to_unit_info.clear()\n        self.quantities_cache.clear()", "        self.quantities_cache.clear()")
+mut("C14", "valid_units_check_only_first", UD, "                if fixed_unit not in quantity_units:\n                    msg = \"unit %r is not valid for quantity type %r.\\nQuantity units: %r\"", "                if i == 0 and fixed_unit not in quantity_units:\n                    msg = \"unit %r is not valid for quantity type %r.\\nQuantity units: %r\"")
+mut("C14", "legacy_default_unit_not_fixed", UD, "            if was_unit_fixed:\n                default_unit = fixed_default_unit\n            if default_unit not in quantity_units:", "            if fixed_default_unit not in quantity_units:")
+mut("C14", "from_category_ignores_explicit_default_value", UD, "            if default_value is None:\n                default_value = category_info.default_value\n            if min_value is None:", "            default_value = category_info.default_value\n            if min_value is None:")
+mut("C14", "default_value_max_assert_inclusive_only", UD, "                if is_max_exclusive:\n                    assert default_value < max_value, msg % (", "                if False:\n                    assert default_value < max_value, msg % (")
+mut("C14", "override_keeps_memo_and_cache", UD, "        if category in self.categories_to_quantity_types:\n            # Replacing a category: quantities already interned for it embed the previous\n            # category info (quantity type, limits, conversion), so they can't be handed out again.\n            self.quantities_cache.clear()\n", "")
+mut("C14", "getvalidunits_fallback_reverted", UD, "                if (\n                    base_category_info is not None\n                    and base_category_info.quantity_type == quantity_type\n                ):\n                    return self.GetValidUnits(quantity_type)", "                return self.GetValidUnits(quantity_type)")
+
 
 def run_one(prop, name, file, old, new, runs, suite):
     d = tempfile.mkdtemp(prefix="barril-mut-", dir="/dev/shm")
